@@ -153,6 +153,10 @@ mut("C20 from_vec reverses", [(VEC, "            elements: elements\n           
 mut("C20 N: from_vec by indexed clone", [(VEC, "            elements: elements\n                .try_into()\n                .unwrap_or_else(|_| panic!(\"invalid dimension\")),", "            elements: { assert!(elements.len() == D, \"invalid dimension\"); array::from_fn(|i| elements[i].clone()) },")], C20=None)
 mut("C20 N: commuted products", [(VEC, "                acc + left.ref_mul(right)", "                right.ref_mul(left) + acc")], C20=None)
 
+# ---- reader constants are decided from their bodies ----
+mut("C07 reader one() returns zero", [(RNG, "        self.cache[0].one()", "        self.cache[0].zero()")], C07="C07-", C11="C11-")
+mut("C07 N: reader zero() returns one (only ever a precision carrier / overwritten initial value)", [(RNG, "        self.cache[0].zero()", "        self.cache[0].one()")], C08=None, C07=None, C11=None)
+mut("C07 N: reader one() through a local", [(RNG, "        self.cache[0].one()", "        let first = &self.cache[0];\n        first.one()")], C07=None, C11=None, C14=None)
 # ---- C15-e series, decided at matrix level ----
 _PUSH_OLD = """            let last_power_of_n = powers_of_n
                 .last()
